@@ -93,17 +93,17 @@ def handler (op : String) (j : Json) : Option (R Json) :=
   | "dec.pattern" => some do
     let n ← getNat j "n"
     let l ← schedule (← getStr j "mesh") n
-    let Z := runPat noZeros l
+    let Z := ofTablePat (runPatTab n (tabulatePat n noZeros) l)
     pure <| Json.mkObj [("lowerDone", Json.bool (lowerDone n Z)),
       ("zeros", jarr ((List.range n).map fun i => jarr ((List.range n).map fun k => Json.bool (Z i k))))]
   | "dec.runExact" => some do
     let (n, U) ← asMat (← j.getObjVal? "U")
     let mz ← getBool j "mz"
     let l ← schedule (← getStr j "mesh") n
-    match runExact mz n U l with
+    match runExact mz n (tabulate n U) l with
     | none => pure Json.null
     | some (brs, V) =>
-      pure <| Json.mkObj [("branches", jarr (brs.map fun b => Json.str (branchStr b))), ("V", jmat n V)]
+      pure <| Json.mkObj [("branches", jarr (brs.map fun b => Json.str (branchStr b))), ("V", jmat n (ofTable V))]
   | _ => none
 
 end SFV.Drv.Decomp
